@@ -30,6 +30,45 @@ type Store struct {
 	// goroutine of the caller (for the persistent queue: with the queue mutex held). kind is
 	// get|set|delete|batch; keys are the keys touched by set/delete operations.
 	Hook func(kind string, writes []string)
+
+	// injected faults (armed at a chosen moment, e.g. right before Shutdown is requested)
+	failClose  error
+	failWrite  error
+	failWriteP func(key string) bool
+	// failedCloses / failedWrites count the injected failures that were actually returned
+	failedCloses, failedWrites int64
+}
+
+// FailClose makes every later Close return err (the client still counts as closed afterwards).
+func (s *Store) FailClose(err error) { s.mu.Lock(); s.failClose = err; s.mu.Unlock() }
+
+// FailWrites makes every later Set/Delete/Batch that writes a key for which match returns true fail with
+// err and change nothing (match == nil: every write).
+func (s *Store) FailWrites(match func(key string) bool, err error) {
+	s.mu.Lock()
+	s.failWrite, s.failWriteP = err, match
+	s.mu.Unlock()
+}
+
+// Faults returns how many injected Close / write failures were returned to the caller.
+func (s *Store) Faults() (closes, writes int64) {
+	s.mu.Lock()
+	defer s.mu.Unlock()
+	return s.failedCloses, s.failedWrites
+}
+
+// writeFault must be called with s.mu held.
+func (s *Store) writeFault(keys ...string) error {
+	if s.failWrite == nil {
+		return nil
+	}
+	for _, k := range keys {
+		if s.failWriteP == nil || s.failWriteP(k) {
+			s.failedWrites++
+			return s.failWrite
+		}
+	}
+	return nil
 }
 
 // NewStore returns a store holding a copy of image (nil = empty).
@@ -74,6 +113,9 @@ func (s *Store) Set(_ context.Context, k string, v []byte) error {
 		s.afterClose++
 		return errClosed
 	}
+	if err := s.writeFault(k); err != nil {
+		return err
+	}
 	s.ops++
 	s.live[k] = append([]byte(nil), v...)
 	return nil
@@ -86,6 +128,9 @@ func (s *Store) Delete(_ context.Context, k string) error {
 	if s.closed {
 		s.afterClose++
 		return errClosed
+	}
+	if err := s.writeFault(k); err != nil {
+		return err
 	}
 	s.ops++
 	delete(s.live, k)
@@ -108,6 +153,13 @@ func (s *Store) Batch(_ context.Context, ops ...*storage.Operation) error {
 		s.afterClose++
 		return errClosed
 	}
+	for _, op := range ops {
+		if op.Type != storage.Get {
+			if err := s.writeFault(op.Key); err != nil {
+				return err
+			}
+		}
+	}
 	s.ops++
 	for _, op := range ops {
 		switch op.Type {
@@ -127,6 +179,10 @@ func (s *Store) Close(context.Context) error {
 	defer s.mu.Unlock()
 	s.closed = true
 	s.closes++
+	if s.failClose != nil {
+		s.failedCloses++
+		return s.failClose
+	}
 	return nil
 }
 
